@@ -221,6 +221,10 @@ class P:
                 if len(args) != 3:
                     raise Shape('mk_choice arity')
                 return '(mk %s %s %s)' % tuple(args)
+            if name == 'find':                            # the table lookup returns the entry with the same structure
+                if len(args) != 1:
+                    raise Shape('find arity')
+                return args[0]
             if name in self.rec:
                 return '(%s %s)' % (self.rec[name], ' '.join(args))
             if name in MODEL:
@@ -630,6 +634,16 @@ def gallina(src):
             'Lemma src_bex_ok : forall vs b, src_bex vs b = bex vs b.',
             'Proof. induction vs as [|x r IH]; intros b; cbn [src_bex bex]; [reflexivity | rewrite IH; reflexivity]. Qed.', '']
     names.append('src_bex_ok')
+    # clean (re-interns the root) and simplify (the reduction rule inside mk_choice)
+    ps, e, tot = translate(src, 'clean')
+    out += ['Definition src_clean (%s : bdd) : bdd := %s.' % (ps[0], e),
+            'Lemma src_clean_ok : forall a, src_clean a = clean a.', 'Proof. intros a. destruct a; reflexivity. Qed.']
+    names.append('src_clean_ok')
+    ps, e, tot = translate(src, 'simplify')
+    out += ['Definition src_simplify (%s : bdd) : bdd := %s.' % (ps[0], e),
+            'Lemma src_simplify_ok : forall t v f, src_simplify (Nd t v f) = mk t v f.',
+            'Proof. intros t v f. unfold mk. cbn [src_simplify]. destruct (bdd_eqb t f); reflexivity. Qed.', '']
+    names.append('src_simplify_ok')
     for nm in names:
         out.append('Print Assumptions %s.' % nm)
     return '\n'.join(out) + '\n', names
@@ -642,7 +656,7 @@ def run(ctx):
     try:
         src = open(bdd_rs, encoding='utf-8').read()
         text, names = gallina(src)
-        info.update(functions=30, obligations=len(names))
+        info.update(functions=32, obligations=len(names))
         gdir = os.path.join(ctx.build, 'gen')
         os.makedirs(gdir, exist_ok=True)
         gen = os.path.join(gdir, 'SrcFun_%s.v' % ctx.pid)
@@ -668,5 +682,5 @@ def run(ctx):
     if status != 'shape-not-recognised':
         for t in (names or ['src_band_ok']):
             ctx.obligations.append(('generated:' + t, 'closed' if status == 'proved' else 'failed'))
-    ctx.trusted.append('translator lib/vlib/srcfun.py (match arms, let / if chains and compositions and slice recursions of 30 functions of src/bdd.rs -> Gallina functions; status this run: %s)' % status)
+    ctx.trusted.append('translator lib/vlib/srcfun.py (match arms, let / if chains and compositions and slice recursions of 32 functions of src/bdd.rs -> Gallina functions; status this run: %s)' % status)
     return status, detail, info
